@@ -112,6 +112,15 @@ func init() {
 			if addValid(spell(k), dl.Add(-time.Second), "before-delegation") {
 				out.Violate("C18|valid-before-delegation:"+k, "."+k+" is valid one second before its delegation "+e.DelegationDate, k, false, true)
 			}
+			if i%stride == 0 || e.RemovalDate != "" {
+				if addValid(spell(k), dl.Add(-time.Nanosecond), "sub-second-before-delegation") {
+					out.Violate("C18|valid-before-delegation:"+k, "."+k+" is valid one nanosecond before its delegation "+e.DelegationDate, k, false, true)
+				}
+				if addValid(spell(k), dl.Add(-999999999*time.Nanosecond), "sub-second-before-delegation") {
+					out.Violate("C18|valid-before-delegation:"+k, "."+k+" is valid 999999999ns before its delegation "+e.DelegationDate, k, false, true)
+				}
+				addValid(spell(k), dl.Add(time.Nanosecond), "sub-second-after-delegation")
+			}
 			if i%stride == 0 {
 				addValid(spell(k), dl.Add(time.Second), "after-delegation")
 				addValid(spell(k), time.Date(2030, 1, 1, 0, 0, 0, 0, time.UTC), "far-future")
@@ -132,6 +141,15 @@ func init() {
 					out.Violate("C18|valid-after-removal:"+k, "."+k+" is valid one second after its removal "+e.RemovalDate, k, false, true)
 				}
 				addValid(spell(k), rm.Add(-time.Second), "before-removal")
+				// instants are finer than seconds: the first nanosecond after removal is already after it
+				for _, d := range []time.Duration{time.Nanosecond, 999999999 * time.Nanosecond, 500 * time.Millisecond} {
+					if addValid(spell(k), rm.Add(d), "sub-second-after-removal") {
+						out.Violate("C18|valid-after-removal:"+k, fmt.Sprintf(".%s is valid %v after its removal %s", k, d, e.RemovalDate), map[string]interface{}{"tld": k, "offset_ns": int64(d)}, false, true)
+					}
+				}
+				if !addValid(spell(k), rm.Add(-time.Nanosecond), "sub-second-before-removal") {
+					out.Violate("C18|invalid-before-removal:"+k, "."+k+" is not valid one nanosecond before its removal", k, true, false)
+				}
 			}
 			if e.RemovalDate != "" || i%40 == 0 {
 				for _, off := range []time.Duration{-time.Hour, -time.Second, 0, time.Second, time.Hour} {
